@@ -204,7 +204,7 @@ func vc17DrawDelta(t *rapid.T, e *vc17Env) (d time.Duration) {
 	return max(d, 0)
 }
 
-var vc17QNames = []string{"example.org.", "WwW.Example.ORG.", "a.b.c.verif.test.", "hc.verif.test.example."}
+var vc17QNames = []string{"example.org.", "WwW.Example.ORG.", "a.b.c.verif.test.", "hc.verif.test.example.", ".", "a."}
 
 var vc17QTypes = []uint16{dns.TypeA, dns.TypeAAAA, dns.TypeTXT, dns.TypeHTTPS}
 
@@ -223,11 +223,11 @@ func vc17DrawMode(t *rapid.T, label string) vc17Mode {
 
 func TestVerifC17History(t *testing.T) {
 	st := vstat.New("C17", "forward.history",
-		"rapid histories (1-3 mains, 0-2 fallbacks, backoff 0..2000h; ops: query, health-check round, behaviour switch among 14 scripted behaviours, clock step biased to backoff-eps/backoff/backoff+eps of a failed main) against a reference fail-over state machine; non-trivial = the history contains a health-check round that finds a previously failed main up again (before or after its backoff), distinct by the whole history",
+		"rapid histories (1-3 mains, 0-2 fallbacks, backoff 0..2000h; ops: query (with or without EDNS, names incl. the root), health-check round, health-check round with 1-4 queries in flight, behaviour switch among 14 scripted behaviours, clock step biased to backoff-eps/backoff/backoff+eps of a failed main) against a reference fail-over state machine; non-trivial = the history contains a health-check round that finds a previously failed main up again (before or after its backoff), distinct by the whole history",
 		"recovered-after-backoff", "blocked-in-backoff-while-up", "boundary-exact-recovered", "boundary-just-before-blocked",
 		"all-down-query-to-fallback", "all-down-fallback-fails", "neterr-fallback-ok", "neterr-fallback-fails", "neterr-no-fallbacks",
 		"plainerr-no-fallback", "no-fallbacks-refresh-with-down-main", "partial-active", "refail-after-backoff", "probe-failed-by-rcode",
-		"rcode-reply-passed-through")
+		"rcode-reply-passed-through", "queries-during-health-check", "query-before-first-health-check", "refresh-reports-all-mains-down")
 	st.Finish(t)
 
 	ctx := context.Background()
@@ -282,8 +282,8 @@ func TestVerifC17History(t *testing.T) {
 		doQuery := func() {
 			name := rapid.SampledFrom(vc17QNames).Draw(t, "qname")
 			qt := rapid.SampledFrom(vc17QTypes).Draw(t, "qtype")
-			id := rapid.Uint16().Draw(t, "id")
-			e.query(ctx, fail, name, qt, id)
+			id := rapid.OneOf(rapid.Uint16(), rapid.SampledFrom([]uint16{0, 0xffff})).Draw(t, "id")
+			e.query(ctx, fail, name, qt, id, rapid.Bool().Draw(t, "edns"))
 		}
 
 		setMode := func(f *vc17Fake, m vc17Mode) {
@@ -294,9 +294,17 @@ func TestVerifC17History(t *testing.T) {
 		nOps := rapid.IntRange(4, 40).Draw(t, "nOps")
 	ops:
 		for range nOps {
-			switch rapid.IntRange(0, 9).Draw(t, "op") {
+			switch rapid.IntRange(0, 10).Draw(t, "op") {
 			case 0, 1, 2:
 				doQuery()
+			case 10:
+				// A health-check round with queries in flight.
+				ids := rapid.SliceOfN(rapid.Uint16(), 1, 4).Draw(t, "during")
+				if err := e.concurrent(ctx, fail, rapid.SampledFrom(vc17QTypes).Draw(t, "qtype"), ids); err != nil {
+					ambiguous = true
+
+					break ops
+				}
 			case 3, 4:
 				if !refresh() {
 					break ops
